@@ -360,8 +360,8 @@ def run_layout(acc, shapes, seed):
                         acc.v("aggregate:constant-value", f"{what}: got {xs.tolist()} expected {ref.tolist()}")
                 acc.nontrivial += nt
         acc.outcomes.add(digest(["aggregate", shapes, order]))
-    # observation only (key count 0 is outside the enumerated 1..3): Grad with no outputs returns torch.empty(...), i.e.
-    # uninitialised memory, where the VJP of no cotangent is 0. Not asserted because the content is arbitrary (flaky by nature).
+    # key count 0: the VJP of no cotangent is the zero vector. (Grad used to return torch.empty(...), i.e. uninitialised memory,
+    # there - fixed in /repo, see known_findings.json; correct code always passes, the old code failed whenever the garbage was non-zero.)
     from torchjd.autojac._transform import Grad
 
     junk = [torch.full_like(k, 7.0) for k in keys]
@@ -371,6 +371,7 @@ def run_layout(acc, shapes, seed):
         acc.count("grad_no_outputs_probes")
         if any(not bool((v == 0).all()) for v in res.values()):
             acc.count("grad_no_outputs_returned_nonzero_garbage")
+            acc.v("grad:no-outputs-not-zero", f"Grad([], inputs) returned non-zero values for key shapes {shapes}: the gradient of nothing is zero")
     # no key at all: the aggregator is not called, the result is empty
     rec = RecordingAggregator(Mean())
     res = _call(acc, "Aggregate no keys", lambda: Aggregate(rec, [])(Jacobians({})))
